@@ -92,6 +92,46 @@ def parLoop (base items threads : Nat) : Outcome (List (List Work)) :=
 /-- `chunks items threads`: the loop of `execute_bdd_circuit_multi_thread` (`base = 0`). -/
 def chunks (items threads : Nat) : Outcome (List (List Work)) := parLoop 0 items threads
 
+/-! ### `Scratch::split_mut` over `take_slice_aligned` -/
+
+/-- a scratch window: `start` = byte offset of its first byte from a 64-byte-aligned base
+(`ScratchOwned` allocations are 64-aligned), `len` = its length in bytes -/
+structure Win where
+  start : Nat
+  len : Nat
+deriving Repr, DecidableEq
+
+/-- `ptr.align_offset(DEFAULTALIGN)` with `DEFAULTALIGN = 64` -/
+def Win.alignOffset (w : Win) : Nat := (64 - w.start % 64) % 64
+
+/-- `scratch_available_default`: `len.saturating_sub(aligned_offset)` -/
+def Win.available (w : Win) : Nat := w.len - w.alignOffset
+
+/-- `take_slice_aligned(data, take_len)` (`poulpy-cpu-ref/src/hal_defaults/scratch.rs`): the taken
+slice starts at the next 64-byte boundary; panics when the aligned remainder is too short. -/
+def takeAligned (w : Win) (n : Nat) : Outcome (Win × Win) :=
+  let off := w.alignOffset
+  let alignedLen := w.len - off
+  if alignedLen < n then .panic "scratch"
+  else .ok (⟨w.start + off, n⟩, ⟨w.start + off + n, alignedLen - n⟩)
+
+def splitLoop : Nat → Win → Nat → Outcome (List Win × Win)
+  | 0, w, _ => .ok ([], w)
+  | k + 1, w, len =>
+    match takeAligned w len with
+    | .panic c => .panic c
+    | .err e => .err e
+    | .ok (t, rest) =>
+      match splitLoop k rest len with
+      | .ok (ts, r) => .ok (t :: ts, r)
+      | .panic c => .panic c
+      | .err e => .err e
+
+/-- `Scratch::split_mut(n, len)`: `assert!(self.available() >= n * len)`, then `n` times
+`split_at_mut(len)` (= `take_slice(len)`). -/
+def splitMut (w : Win) (n len : Nat) : Outcome (List Win × Win) :=
+  if w.available < n * len then .panic "assert" else splitLoop n w len
+
 /-- What happens to one slot of the output slice. -/
 inductive Act where
   /-- written by thread `thread` (scratch window `scratch`) with the result of item `index` -/
@@ -108,21 +148,26 @@ def actOf (ws : List Work) (j : Nat) : Option Act :=
 /-- `execute_bdd_circuit_multi_thread(threads, out, inputs, circuit, scratch)`:
 `outLen = out.len()`, `outputSize = circuit.output_size()`, `inBits = inputs.bit_size()`,
 `circIn = circuit.input_size()`, `avail = scratch.available()`, `perThread` =
-`execute_bdd_circuit_tmp_bytes`.  Order of the checks as in the source. -/
+`execute_bdd_circuit_tmp_bytes`.  Order of the checks as in the source.  The scratch handed in is
+taken to start 64-byte aligned (a `ScratchOwned` borrow), so `available() = len`. -/
 def execBdd (threads outLen outputSize inBits circIn avail perThread : Nat) : Outcome (List Act) :=
   if inBits < circIn then .panic "assert"            -- debug assertion 1
   else if outLen < outputSize then .panic "assert"   -- debug assertion 2
   else if outLen = 0 then .panic "bounds"            -- `&out[0]`
   else if avail < threads * perThread then .panic "assert"
   else
-    -- `split_mut` (its own assert is the same comparison), then `div_ceil`, then the zip
-    match parLoop 0 outputSize threads with
+    -- `split_mut`, then `div_ceil`, then the zip
+    match splitMut ⟨0, avail⟩ threads perThread with
     | .panic c => .panic c
     | .err e => .err e
-    | .ok qs =>
-      let ws := qs.flatten
-      .ok ((List.range outLen).map fun j =>
-        if j < outputSize then (actOf ws j).getD Act.untouched else Act.zero)
+    | .ok _ =>
+      match parLoop 0 outputSize threads with
+      | .panic c => .panic c
+      | .err e => .err e
+      | .ok qs =>
+        let ws := qs.flatten
+        .ok ((List.range outLen).map fun j =>
+          if j < outputSize then (actOf ws j).getD Act.untouched else Act.zero)
 
 /-- `fhe_uint_prepare_custom_multi_thread(threads, res, bits, bit_start, bit_count, …)` for a
 `T::BITS = bits`-bit integer. -/
@@ -130,14 +175,19 @@ def execPrepare (threads bits bitStart bitCount avail perThread : Nat) : Outcome
   let bitEnd := bitStart + bitCount
   if bitEnd > bits then .panic "assert"
   else if avail < threads * perThread then .panic "assert"
+  else if threads = 0 then .panic "overflow"        -- `bit_count.div_ceil(threads)` comes first here
   else
-    match parLoop bitStart bitCount threads with
+    match splitMut ⟨0, avail⟩ threads perThread with
     | .panic c => .panic c
     | .err e => .err e
-    | .ok qs =>
-      let ws := qs.flatten
-      .ok ((List.range bits).map fun j =>
-        if bitStart ≤ j ∧ j < bitEnd then (actOf ws j).getD Act.untouched else Act.zero)
+    | .ok _ =>
+      match parLoop bitStart bitCount threads with
+      | .panic c => .panic c
+      | .err e => .err e
+      | .ok qs =>
+        let ws := qs.flatten
+        .ok ((List.range bits).map fun j =>
+          if bitStart ≤ j ∧ j < bitEnd then (actOf ws j).getD Act.untouched else Act.zero)
 
 /-! ### The abstract machine -/
 
